@@ -52,7 +52,7 @@ class C08(Prop):
             "attempted after a Close was written.")
     assumptions = ("single-threaded histories only (C12 covers races)",
                    "whatever follows the server's own Close frame on the wire is not generated")
-    examples = {"quick": 4000, "thorough": 80000}
+    examples = {"quick": 4000, "thorough": 160000}
 
     def strategy(self, tier):
         msgs = st.lists(gen.message(big=False), max_size=4)
